@@ -72,6 +72,9 @@ pub fn run(ctx: &ChildCtx, sh: &mut Shard) {
         } else if src < 52 {
             let m = wasmref::gen::gen_module(&mut r, &cfg);
             let (b, l) = mutate_leb(&mut r, &m);
+            if l == "leb.overflow" {
+                expected = Some(false);
+            }
             (b, l.into())
         } else if src < 72 {
             let m = wasmref::gen::gen_module(&mut r, &cfg);
